@@ -74,6 +74,16 @@ class Encoder:
         self.global_addr = {}
         self.depth = 0
         self.trap_names = {}
+        # optional modes (per job / contract)
+        self.div_fresh = False     # encode division by a constant with fresh quotient/remainder variables
+        self._divs = {}            # (op family, id(a), c) -> (q, r)
+        self._ub = {}              # z3 ast id -> known bound on the magnitude of a fresh quotient
+        self.cut_inv = None        # loop cutpoints: callback(header, phis) -> invariant (see _encode_body)
+        self.cut_axioms = None     # definitional facts about spec functions instantiated at the havoc state
+        self.trip = None           # (loop ordinal, D): explore only executions whose loop #ordinal takes exactly D back edges
+        self.trip_assumed = []     # the case hypothesis: conditions of the edges excluded by `trip`
+        self.trip_cut = False      # a feasible back edge was excluded (so a case D+1 exists)
+        self.cuts = {}             # header -> dict(entry_reach, phis, entry, havoc, back=[(cond, vals)])
 
     def fresh_bv(self, hint, w):
         self.fresh += 1
@@ -135,6 +145,9 @@ class Encoder:
                 (pt, pv) = v.args[0]
                 base = self.const(pt, pv, env)
                 return self.gep(v.extra, base, [(t2, self.const(t2, v2, env)) for (t2, v2) in v.args[1:]])
+            if v.op == "icmp":
+                (t1, v1), (t2, v2) = v.args
+                return self.icmp(v.extra, t1, self.const(t1, v1, env), self.const(t2, v2, env))
             if v.op in ir.BINOPS:
                 (t1, v1), (t2, v2) = v.args
                 return self.binop(v.op, set(), t1, self.const(t1, v1, env), self.const(t2, v2, env), None, None)
@@ -360,6 +373,13 @@ class Encoder:
                 if op in ("sdiv", "srem"):
                     self.safety.append(("trap:%s:sdiv-overflow" % where, "trap",
                                         z3.And(reach, a == bv(1 << (w - 1), w), b == bv(-1, w))))
+            if self.div_fresh:
+                bc = z3.simplify(b)
+                if z3.is_bv_value(bc) and 2 <= bc.as_long() < (1 << (w - 1)):
+                    q, rem = self.const_div(op[0], a, bc.as_long(), w)
+                    if "exact" in flags:
+                        flag(op + "-exact", rem == 0)
+                    return q if op in ("udiv", "sdiv") else rem
             if op == "udiv":
                 if "exact" in flags:
                     flag("udiv-exact", z3.URem(a, b) == 0)
@@ -394,6 +414,62 @@ class Encoder:
         if op == "xor":
             return a ^ b
         raise EncError("binop %s" % op)
+
+    def magnitude_bound(self, a, sign, depth=0):
+        """A syntactic upper bound on |a| (read as signed for sign == "s", unsigned otherwise)."""
+        w = a.size()
+        M = (1 << w) - 1 if sign == "u" else (1 << (w - 1))
+        if a.get_id() in self._ub:
+            return self._ub[a.get_id()]
+        if depth > 6:
+            return M
+        if z3.is_bv_value(a):
+            x = a.as_long()
+            return x if sign == "u" or not (x >> (w - 1)) else (1 << w) - x
+        kind = a.decl().kind()
+        if kind == z3.Z3_OP_ZERO_EXT or (kind == z3.Z3_OP_CONCAT and z3.is_bv_value(a.arg(0)) and a.arg(0).as_long() == 0):
+            return min(M, (1 << a.arg(a.num_args() - 1).size()) - 1) if a.num_args() <= 2 else M
+        if kind == z3.Z3_OP_ITE:
+            return max(self.magnitude_bound(a.arg(1), sign, depth + 1), self.magnitude_bound(a.arg(2), sign, depth + 1))
+        return M
+
+    def const_div(self, sign, a, c, w):
+        """Quotient and remainder of a / c for a constant c > 0 as fresh variables with their defining
+        constraints (a definitional extension: for every a exactly one (q, r) satisfies them).  Avoids
+        divider circuits; multiplication by a constant is shifts and adds.  A syntactic magnitude bound
+        is tracked so that repeated division reaches the constant 0 (loops over digits then unroll to
+        exactly the number of digits the operand width allows)."""
+        a = z3.simplify(a)
+        key = (sign, a.get_id(), c)
+        if key in self._divs:
+            return self._divs[key][1:]
+        if z3.is_bv_value(a):
+            x = a.as_long()
+            if sign == "u":
+                q, r = bv(x // c, w), bv(x % c, w)
+            else:
+                sx = x - (1 << w) if x >> (w - 1) else x
+                qq = abs(sx) // c * (1 if sx >= 0 else -1)
+                q, r = bv(qq, w), bv(sx - qq * c, w)
+            self._divs[key] = (a, q, r)
+            return q, r
+        M = (1 << w) - 1 if sign == "u" else (1 << (w - 1))
+        ub = min(self.magnitude_bound(a, sign), M) // c
+        if ub == 0:
+            q, r = bv(0, w), a
+            self._divs[key] = (a, q, r)
+            return q, r
+        q = self.fresh_bv("divq", w)
+        r = a - bv(c, w) * q
+        C = bv(c, w)
+        if sign == "u":
+            self.assumptions.append(z3.And(z3.ULE(q, bv(min(ub, M // c), w)), z3.ULE(C * q, a), z3.ULT(r, C)))
+        else:
+            self.assumptions.append(z3.And(q <= bv(min(ub, ((1 << (w - 1)) - 1) // c), w), q >= bv(-min(ub, (1 << (w - 1)) // c), w),
+                                           z3.If(a >= 0, z3.And(r >= 0, r < C, q >= 0), z3.And(r <= 0, r > bv(-c, w), q <= 0))))
+        self._ub[q.get_id()] = ub
+        self._divs[key] = (a, q, r)
+        return q, r
 
     def icmp(self, pred, t, a, b):
         if isinstance(a, Ptr) or isinstance(b, Ptr):
@@ -535,6 +611,12 @@ class Encoder:
         backset = set(back)
         bound = self.unroll or self.DEFAULT_UNROLL
         entry = fn.blocks[0].name
+        trip_hdr = None
+        if self.trip is not None and self.depth == 0:
+            tops = sorted([h for h in bodies if len(nests[h]) == 1], key=lambda h: ti[h])
+            if self.trip[0] >= len(tops):
+                raise EncError("trip-count split: the function has no top-level loop #%d" % self.trip[0])
+            trip_hdr = tops[self.trip[0]]
 
         def time_key(bn, counts):
             key = []
@@ -593,6 +675,8 @@ class Encoder:
                 if val is None:
                     raise EncError("phi without reachable incoming edge in %s" % where0)
                 phi_vals.append((ins.res, val, pzv))
+            if self.cut_inv is not None and bn in bodies:
+                r, phi_vals = self.cut_header(fn, bn, bodies, nests, r, phi_vals, where0)
             for (res, val, pzv) in phi_vals:
                 env[res] = val
                 if pzv is not None:
@@ -618,8 +702,34 @@ class Encoder:
                 cond = z3.simplify(cond)
                 if z3.is_false(cond):
                     return
+                if target in self.cuts and (bn, target) in backset:
+                    # cut loop: the back edge is not followed; its values must re-establish the invariant
+                    vals = []
+                    for ins2 in fn.bmap[target].instrs:
+                        if ins2.op != "phi":
+                            continue
+                        for (v, lab) in ins2.incoming:
+                            if lab == bn:
+                                vals.append(self.const(ins2.ty, v, env))
+                                if isinstance(v, ir.Local) and PZ.get(v.name) is not None:
+                                    self.safety.append(("flag:%s:poison-loop-carried" % where0, "flag", z3.And(cond, PZ[v.name])))
+                                break
+                    self.cuts[target]["back"].append((cond, vals))
+                    return
                 src_nest = nests.get(bn, [])
                 cmap = dict(zip(src_nest, counts))
+                if trip_hdr is not None and bn in bodies[trip_hdr]:
+                    # path splitting on the trip count of one loop: in case D only executions that take exactly
+                    # D back edges are followed; the excluded edges' conditions form the case hypothesis.
+                    cur = cmap.get(trip_hdr, 0)
+                    if (bn, target) in backset and target == trip_hdr:
+                        if cur + 1 > self.trip[1] and self.trip[1] < bound:
+                            self.trip_assumed.append(z3.Not(cond))
+                            self.trip_cut = True
+                            return
+                    elif target not in bodies[trip_hdr] and fn.bmap[target].term.op != "unreachable" and cur < self.trip[1]:
+                        self.trip_assumed.append(z3.Not(cond))
+                        return
                 tc = []
                 over = False
                 for h in nests.get(target, []):
@@ -671,6 +781,40 @@ class Encoder:
                 rv = self.ite(r, v, rv)
             mo = self.merge_mem(r, mm, mo)
         return rv, mo, rc
+
+    CUT_ALLOWED_CALLS = ("llvm.ubsantrap", "llvm.trap", "__assert_fail", "llvm.lifetime", "llvm.dbg", "llvm.sadd.with", "llvm.ssub.with",
+                         "llvm.smul.with", "llvm.uadd.with", "llvm.usub.with", "llvm.umul.with")
+
+    def cut_header(self, fn, bn, bodies, nests, r, phi_vals, where0):
+        """Loop cutpoint (Floyd/Hoare): the header's phis are replaced by fresh variables that satisfy the
+        contract's invariant, the body is encoded once from that arbitrary iteration, the back edges
+        are recorded (not followed) and the loop's exits continue to the function's return.  The
+        harness generates init (entry values satisfy the invariant) and step (every back edge
+        re-establishes it) obligations; everything after the loop is proved from the invariant alone.
+        Restrictions (checked): no nesting, the body does not write memory and calls nothing but traps."""
+        if len(nests.get(bn, [])) != 1 or any(len(nests.get(b2, [])) != 1 for b2 in bodies[bn]):
+            raise EncError("cut mode: nested loops at %s" % where0)
+        if bn in self.cuts:
+            raise EncError("cut mode: loop header %s reached twice" % where0)
+        for b2 in bodies[bn]:
+            for ins in fn.bmap[b2].instrs:
+                if ins.op == "store" or (ins.op == "call" and not ins.callee.startswith(self.CUT_ALLOWED_CALLS)):
+                    raise EncError("cut mode: loop body at %s writes memory or calls %s" % (where0, getattr(ins, "callee", "store")))
+        entry, havoc, out = [], [], []
+        for (res, val, pzv) in phi_vals:
+            if isinstance(val, (Ptr, tuple)):
+                raise EncError("cut mode: pointer/aggregate loop-carried value %%%s at %s" % (res, where0))
+            if pzv is not None:
+                self.safety.append(("flag:%s:poison-loop-entry" % where0, "flag", z3.And(r, pzv)))
+            hv = z3.Bool("cut!%s!%s" % (bn, res)) if z3.is_bool(val) else z3.BitVec("cut!%s!%s" % (bn, res), val.size())
+            entry.append(val)
+            havoc.append(hv)
+            out.append((res, hv, None))
+        inv = self.cut_inv(bn, havoc, entry)
+        if self.cut_axioms is not None:
+            inv = z3.And(inv, self.cut_axioms(bn, havoc, entry))
+        self.cuts[bn] = {"entry_reach": r, "entry": entry, "havoc": havoc, "back": [], "where": where0}
+        return z3.And(r, inv), out
 
     def ite(self, c, a, b):
         if isinstance(a, tuple):
@@ -827,6 +971,10 @@ class Encoder:
             name = self.pending_assert or ("ubsan-%d" % code)
             self.pending_assert = None
             self.safety.append(("trap:%s:%s" % (where, name), "trap", r))
+            return m, True
+        if c == "llvm.trap":
+            # the optimiser folded a sanitizer check whose failure it could decide statically into a bare trap
+            self.safety.append(("trap:%s:llvm.trap" % where, "trap", r))
             return m, True
         if c in ("__assert_fail", "abort", "_ZSt9terminatev"):
             msg = "assert"
